@@ -378,6 +378,11 @@ def ray_builders(model, inst, X):
         B['Huber[%s, gamma = sigma / 2]' % t] = (
             lambda I, ps=ps: inst(I, 'Huber', ps(), sig / 2),
             [3 * sig / a0, sig / (4 * a0), 4 * sig / a1, sig / a1], 'ray')
+        # no smoothing: the isotropic group norm (vector soft thresholding)
+        B['Huber[%s, gamma = 0]' % t] = (
+            lambda I, ps=ps: inst(I, 'Huber', ps(), 0),
+            [3 * sig / a0, sig / (4 * a0), 4 * sig / a1, sig / (4 * a1)],
+            'ray')
     for w, t in ((None, 'unweighted'), (Rat.const(2), 'weight 2')):
         def sp(w=w, n=4):
             return NSpace((n,), 'float64', w)
